@@ -22,6 +22,7 @@ CLAIMED = {
  "C16": ("model_checking", HIST + " Three repositories with nested / prefix names are observed completely after every request (any leak fails the sync clauses of another repository), sessions are used against other repositories, mounts name present / absent / unknown sources and sources outside the grammar (../victim); the root lives in a sandbox next to sentinel layouts holding the catalogue blobs and a digest of everything outside the root must never change (confined).", "6 C16"),
  "C15": ("model_checking", "spec/Routing.tla defines the request grammar as classes (method x endpoint shape x repository name class x reference/digest/session class x query parameter classes x header classes x body class, about 20 000 classes) and, per class and store kind, the set of allowed statuses and error codes; TLC (spec/MCRouting.tla) enumerates every class as a state and checks the table is total and only allows registered codes and no 5xx; the harness concretises every class (seeded variants: boundary integers, malformed base64/JSON/digests, dot segments, over-long names) against a server holding a fixed state (tagged image, paged referrers, open sessions) on mem, dir, mem-over-dir and read-only dir with recover() around ServeHTTP; TLC validates every (class, answer) pair against the table (spec/TraceRouting.tla): no panic, no 5xx, status in the allowed set, error body is an OCI error document with an allowed registered code, names outside the grammar create nothing.", "6 C15"),
  "C19": ("model_checking", "spec/Config.tla is the table of documented effects: every combination of push/delete/blob-delete/referrer/read-only (true, false, unset) x store type x warnings x rate limit is one TLC state (2916) and ExactEffect (a switch changes only the classes it governs) is checked on the table; the harness answers ten request classes per combination through olareg.New (library) and through the built binary `olareg serve --flags` over loopback TCP (flag to field wiring), checks defaults (unset and all 512 explicit boolean masks through SetDefaults), persistence per store type, SIGTERM (exit 0, storage re-opened); TLC validates all answers against the table (spec/TraceConfig.tla). The rate limiter is modelled in spec/RateLimit.tla (RateBound, Independent exhaustive), generated (address, tick) sequences (spec/MCRateLimit.tla) are replayed in real time and validated by spec/TraceRateLimit.tla.", "6 C19"),
+ "C20": ("model_checking", "spec/Cache.tla models internal/cache (Set/Get/Delete/DeleteAll, the age timer = pruneAge, spawned pruneCount runs, failing cleanups) and TLC checks CleanupBeforeRemoval, FailedKept, NoEarlyExpiry, LRUFirst, BoundedAtRest exhaustively for small constants (incl. Count 0/1, Age 0); behaviours generated by tlc -simulate (spec/MCCache.tla) are replayed by an in-package driver injected with go test -overlay on a copy of cache.go rewritten at check time onto a virtual clock (time.Now, time.AfterFunc, *time.Timer, go c.pruneCount); after every operation membership, cleanup calls with their result, timer state and waiting prunes are logged and TLC validates the trace against spec/TraceCache.tla.", "6 C20"),
  "C18": ("model_checking", "spec/IndexImpl.tla transcribes AddDesc/RmDesc/AddChildren/GetDesc/GetByAnnotation statement by statement; TLC checks all C18 invariants and action properties on the closure (every operation sequence of any length) of small universes; behaviours of the model (tlc -simulate of spec/MCIndex.tla, with the predicted list after each step) and Go-generated random sequences are applied to the real types.Index; the projection through the public methods after every step, including an earlier Copy, is validated by TLC against the abstract index model spec/TraceIndex.tla (verdict); list differences to IndexImpl are reported as DRIFT.", "6 C18"),
  "C08": ("model_checking", HIST + " Clauses: PATCH/PUT accepted iff offsets and state token are in order, status query exact, completion stores the concatenation, sessions exist exactly while the model says so (hook, no LRU refresh), per repository.", "6 C08"),
 }
